@@ -1,21 +1,25 @@
 //! C38 — validation is deterministic and repeatable; signing does not depend on earlier operations in the process.
-//! S-seq: ALL sequences up to a length over an alphabet of eight operations are executed in ONE process (this one),
-//! each sequence on a fresh thread (so the legacy thread-local settings a sequence leaves behind are its own), the
-//! process-wide state (lazy registries, caches) accumulating over all sequences. After a sequence every asset it
-//! produced is re-read twice. Reference = a FRESH worker process (`current_exe()` re-executed with VERIF_C38_WORKER=1)
-//! per asset read / per operation kind, which has executed nothing before.
+//! S-seq: ALL sequences up to a length over a configuration-aware alphabet are executed in ONE process (this one),
+//! each sequence on a fresh thread (so thread-local state a sequence leaves behind is its own), the process-wide state
+//! (lazy registries, caches) accumulating over all sequences. Alphabet = operation kinds {sign png, sign jpeg, read good,
+//! read tampered, sign with ingredient, archive round trip + sign, legacy Settings::from_toml, cancelled read} x the
+//! validation-relevant configurations that matter for them {plain (no anchors), test root as trust anchor, allow-list
+//! with the signer's certificate, verify_trust off}: 13 operations, in every order (trusted first, then plain, …).
+//! After a sequence every asset it produced is re-read twice under the configuration of the producing operation.
 //!
-//! Oracle: (a) the canonical report of every read in the sequence, and of both re-reads, equals the fresh process's
-//! report for the same bytes and settings; (b) the canonical report of every asset a signing operation produced
-//! equals that of the same operation performed by a fresh process (labels/instance ids/times canonicalised);
-//! (c) result classes of the non-reading operations equal the fresh process's.
-//!
-//! Every read is done with the kit's explicit settings AND with a plain `Context::new()`.
+//! Reference = a FRESH process: a fork of an idle zygote (`current_exe()` re-executed with VERIF_C38_WORKER=zygote) that
+//! has executed nothing of the SDK; one fork per job, always under the SAME configuration as the operation judged.
+//! Oracle: (a) every operation's observation (for reads: the canonical report, under the op's configuration and under a
+//! plain Context::new()) equals the fresh process's; (b) the digest-masked canonical report of every asset a signing
+//! operation produced equals that of the same operation in a fresh process; (c) re-reads of a produced asset equal the
+//! read made right after signing (quick) / the fresh-process read of the same bytes (thorough, replay).
 //!
 //! Mutants caught (mutant_run, quick tier):
 //!   C38-context-from-thread-local.diff   Context::new() starts from the legacy thread-local settings
-//!       -> VIOLATION  keys `read-report-differs-from-fresh-process op=read-good|read-tampered after=legacy-from_toml`,
-//!          `produced-asset-read-differs-from-fresh-process … after=legacy-from_toml`
+//!       -> VIOLATION  keys `read-report-differs-from-fresh-process op=read-good@… after=legacy-from_toml`, …
+//!   /tmp/seed-C38 (thread-local memo of 'trusted' verdicts in Verifier::verify_trust, key ignores the trust policy)
+//!       -> VIOLATION  keys `read-report-differs-from-fresh-process op=read-good@plain after=read-good@anchors`,
+//!          `signed-result-depends-on-history op=sign-with-ingredient@plain after=read-good@anchors`, …
 
 use c2pa::{settings::Settings, Builder, ProgressPhase, Reader};
 use kit::{assets, ev::hex, ev::unhex, gutil, par, sdk, Run};
@@ -30,7 +34,56 @@ use std::{
     },
 };
 
-const OPS: [&str; 8] = ["sign-png", "sign-jpeg", "read-good", "read-tampered", "sign-with-ingredient", "archive-round-trip-sign", "legacy-from_toml", "cancelled-read"];
+/// Validation-relevant configurations (each on top of the kit base settings). The signer of every asset is the
+/// repository's ed25519 test credential, whose chain ends in a root of trust/test_cert_root_bundle.pem.
+const CFG_NAMES: [&str; 4] = ["plain", "anchors", "allow-list", "no-verify-trust"];
+
+fn cfg_json(cfg: usize) -> &'static str {
+    static C: OnceLock<Vec<String>> = OnceLock::new();
+    &C.get_or_init(|| {
+        let bundle = String::from_utf8_lossy(&sdk::fixture("certs/trust/test_cert_root_bundle.pem")).to_string();
+        let chain = String::from_utf8_lossy(&sdk::fixture("certs/ed25519.pub")).to_string();
+        let end = chain.find("-----END CERTIFICATE-----").map(|i| i + "-----END CERTIFICATE-----".len()).unwrap_or(chain.len());
+        let ee = format!("{}\n", &chain[..end]);
+        vec![
+            "{}".to_string(),
+            json!({"trust": {"trust_anchors": bundle}}).to_string(),
+            json!({"trust": {"allowed_list": ee}}).to_string(),
+            json!({"verify": {"verify_trust": false}}).to_string(),
+        ]
+    })[cfg]
+}
+
+fn cfg_ctx(cfg: usize) -> c2pa::Context {
+    sdk::ctx_with(&[cfg_json(cfg)])
+}
+
+/// (name, kind, configuration)
+struct OpSpec {
+    name: &'static str,
+    kind: usize,
+    cfg: usize,
+}
+
+/// The alphabet: operation kinds x the configurations that matter for them.
+fn ops() -> &'static [OpSpec] {
+    static O: OnceLock<Vec<OpSpec>> = OnceLock::new();
+    O.get_or_init(|| {
+        let kinds = ["sign-png", "sign-jpeg", "read-good", "read-tampered", "sign-with-ingredient", "archive-round-trip-sign", "legacy-from_toml", "cancelled-read"];
+        let mut v = vec![];
+        for (kind, cfgs) in [(0usize, vec![0usize]), (1, vec![0]), (2, vec![0, 1, 2, 3]), (3, vec![0, 1]), (4, vec![0, 1]), (5, vec![0]), (6, vec![0]), (7, vec![0])] {
+            for cfg in cfgs {
+                let name: &'static str = if kind == 6 { kinds[kind] } else { Box::leak(format!("{}@{}", kinds[kind], CFG_NAMES[cfg]).into_boxed_str()) };
+                v.push(OpSpec { name, kind, cfg });
+            }
+        }
+        v
+    })
+}
+
+fn op_named(name: &str) -> usize {
+    ops().iter().position(|o| o.name == name).unwrap_or_else(|| kit::ev::machinery(format!("C38: no operation named {name}")))
+}
 const DEF: &str = r#"{"title":"t","claim_generator_info":[{"name":"kit","version":"1"}]}"#;
 const ING: &str = r#"{"title":"i","relationship":"componentOf"}"#;
 const LEGACY: &str = "[verify]\nverify_after_reading = false\nverify_after_sign = false\n[builder.claim_generator_info]\nname = \"leaked-from-thread-local\"\n";
@@ -57,8 +110,8 @@ fn make_fixed() -> Fixed {
     Fixed { good, tampered }
 }
 
-fn read_canon(mime: &str, bytes: &[u8]) -> String {
-    read_both(mime, bytes).0
+fn read_canon(cfg: usize, mime: &str, bytes: &[u8]) -> String {
+    read_both(cfg, mime, bytes).0
 }
 
 fn read_default(mime: &str, bytes: &[u8]) -> String {
@@ -70,8 +123,8 @@ fn read_default(mime: &str, bytes: &[u8]) -> String {
 }
 
 /// (canonical report, the same with digests masked)
-fn read_both(mime: &str, bytes: &[u8]) -> (String, String) {
-    match par::guard(|| sdk::read(sdk::ctx(), mime, bytes)) {
+fn read_both(cfg: usize, mime: &str, bytes: &[u8]) -> (String, String) {
+    match par::guard(|| sdk::read(cfg_ctx(cfg), mime, bytes)) {
         Err(p) => (format!("PANIC {p}"), format!("PANIC {p}")),
         Ok(Err(e)) => (gutil::err_class(&e), gutil::err_class(&e)),
         Ok(Ok(r)) => (format!("Ok:{} | default-context: {}", gutil::canon2(&r, false), read_default(mime, bytes)), format!("Ok:{}", gutil::canon2(&r, true))),
@@ -86,6 +139,7 @@ struct Done {
 
 #[allow(deprecated)]
 fn perform(op: usize, fx: &Fixed) -> Done {
+    let cfg = ops()[op].cfg;
     let png = assets::by_name("png");
     let jpeg = assets::by_name("jpeg");
     let sign_with = |b: &mut Builder, a: &assets::Asset| -> Done {
@@ -96,14 +150,14 @@ fn perform(op: usize, fx: &Fixed) -> Done {
             Ok(Ok((bytes, _))) => Done { obs: "signed".into(), produced: Some((mime, bytes)) },
         }
     };
-    match op {
-        0 => sign_with(&mut sdk::builder(sdk::ctx(), DEF), &png),
-        1 => sign_with(&mut sdk::builder(sdk::ctx(), DEF), &jpeg),
+    match ops()[op].kind {
+        0 => sign_with(&mut sdk::builder(cfg_ctx(cfg), DEF), &png),
+        1 => sign_with(&mut sdk::builder(cfg_ctx(cfg), DEF), &jpeg),
         // each read twice: with the kit's explicit settings and with a plain `Context::new()` (default settings)
-        2 => Done { obs: format!("{} | default-context: {}", read_canon("image/jpeg", &fx.good), read_default("image/jpeg", &fx.good)), produced: None },
-        3 => Done { obs: format!("{} | default-context: {}", read_canon("image/jpeg", &fx.tampered), read_default("image/jpeg", &fx.tampered)), produced: None },
+        2 => Done { obs: format!("{} | default-context: {}", read_canon(cfg, "image/jpeg", &fx.good), read_default("image/jpeg", &fx.good)), produced: None },
+        3 => Done { obs: format!("{} | default-context: {}", read_canon(cfg, "image/jpeg", &fx.tampered), read_default("image/jpeg", &fx.tampered)), produced: None },
         4 => {
-            let mut b = sdk::builder(sdk::ctx(), DEF);
+            let mut b = sdk::builder(cfg_ctx(cfg), DEF);
             match par::guard(|| b.add_ingredient_from_stream(ING, "image/jpeg", &mut Cursor::new(&fx.good)).map(|_| ())) {
                 Err(p) => return Done { obs: format!("PANIC {p}"), produced: None },
                 Ok(Err(e)) => return Done { obs: format!("ingredient {}", gutil::err_class(&e)), produced: None },
@@ -113,11 +167,11 @@ fn perform(op: usize, fx: &Fixed) -> Done {
         }
         5 => {
             let r = par::guard(|| {
-                let b = Builder::from_context(sdk::ctx()).with_definition(DEF)?;
+                let b = Builder::from_context(cfg_ctx(cfg)).with_definition(DEF)?;
                 let mut arc = Cursor::new(Vec::new());
                 b.to_archive(&mut arc)?;
                 arc.set_position(0);
-                Builder::from_context(sdk::ctx()).with_archive(arc)
+                Builder::from_context(cfg_ctx(cfg)).with_archive(arc)
             });
             match r {
                 Err(p) => Done { obs: format!("PANIC {p}"), produced: None },
@@ -136,7 +190,7 @@ fn perform(op: usize, fx: &Fixed) -> Done {
         7 => {
             let n = Arc::new(AtomicUsize::new(0));
             let n2 = n.clone();
-            let ctx = sdk::ctx().with_progress_callback(move |_p: ProgressPhase, _s, _t| n2.fetch_add(1, Ordering::SeqCst) < 2);
+            let ctx = cfg_ctx(cfg).with_progress_callback(move |_p: ProgressPhase, _s, _t| n2.fetch_add(1, Ordering::SeqCst) < 2);
             let r = par::guard(|| Reader::from_context(ctx).with_stream("image/jpeg", Cursor::new(&fx.good)));
             Done {
                 obs: match r {
@@ -156,49 +210,118 @@ fn perform(op: usize, fx: &Fixed) -> Done {
 // fresh worker processes
 
 /// Worker side: one job on stdin, one JSON line on stdout, then exit.
-fn worker_main() -> ! {
-    par::quiet_panics();
-    let mut s = String::new();
-    if std::io::stdin().read_to_string(&mut s).is_err() {
-        std::process::exit(4);
-    }
-    let job: Value = serde_json::from_str(&s).unwrap_or(Value::Null);
+fn do_job(job: &Value) -> Value {
     let fx = Fixed { good: unhex(job["good"].as_str().unwrap_or("")), tampered: unhex(job["tampered"].as_str().unwrap_or("")) };
-    let out = match job["job"].as_str() {
+    match job["job"].as_str() {
         Some("read") => {
-            let (c, m) = read_both(job["mime"].as_str().unwrap_or(""), &unhex(job["hex"].as_str().unwrap_or("")));
+            let (c, m) = read_both(job["cfg"].as_u64().unwrap_or(0) as usize, job["mime"].as_str().unwrap_or(""), &unhex(job["hex"].as_str().unwrap_or("")));
             json!({"canon": c, "masked": m})
         }
         Some("op") => {
-            let d = perform(job["op"].as_u64().unwrap_or(99) as usize, &fx);
-            let produced_canon = d.produced.as_ref().map(|(m, b)| read_both(m, b).1);
+            let op = job["op"].as_u64().unwrap_or(99) as usize;
+            let d = perform(op, &fx);
+            let produced_canon = d.produced.as_ref().map(|(m, b)| read_both(ops()[op].cfg, m, b).1);
             json!({"obs": d.obs, "produced_canon": produced_canon})
         }
-        _ => std::process::exit(5),
-    };
-    println!("{out}");
-    std::process::exit(0);
+        _ => json!({"error": "unknown job"}),
+    }
 }
 
+/// Worker side. The worker is a ZYGOTE: a process of this binary that has executed nothing of the SDK. For every job
+/// line on stdin it forks; the child — a copy of a process that has run nothing before — performs the one job,
+/// prints one JSON line and exits. (One exec per zygote instead of one per job: process start-up of this binary
+/// costs seconds on a loaded machine.) The zygote itself is single-threaded and never touches the SDK.
+fn worker_main() -> ! {
+    par::quiet_panics();
+    let stdin = std::io::stdin();
+    let mut line = String::new();
+    loop {
+        line.clear();
+        match stdin.read_line(&mut line) {
+            Ok(0) | Err(_) => std::process::exit(0),
+            Ok(_) => {}
+        }
+        if line.trim().is_empty() {
+            continue;
+        }
+        let pid = unsafe { libc::fork() };
+        if pid < 0 {
+            println!("{}", json!({"error": "fork failed"}));
+            continue;
+        }
+        if pid == 0 {
+            let job: Value = serde_json::from_str(line.trim()).unwrap_or(Value::Null);
+            let out = par::guard(|| do_job(&job)).unwrap_or_else(|p| json!({"error": format!("worker panic: {p}")}));
+            println!("{out}");
+            let _ = std::io::stdout().flush();
+            unsafe { libc::_exit(0) };
+        }
+        let mut status: libc::c_int = 0;
+        unsafe { libc::waitpid(pid, &mut status, 0) };
+        if !(libc::WIFEXITED(status) && libc::WEXITSTATUS(status) == 0) {
+            // the child died without an answer: give the parent a line to read
+            println!("{}", json!({"error": format!("fresh child died with status {status}")}));
+        }
+    }
+}
+
+struct Zygote {
+    child: std::process::Child,
+    stdin: std::process::ChildStdin,
+    stdout: std::io::BufReader<std::process::ChildStdout>,
+}
+
+fn zygotes() -> &'static Vec<Mutex<Zygote>> {
+    static Z: OnceLock<Vec<Mutex<Zygote>>> = OnceLock::new();
+    Z.get_or_init(|| {
+        let exe = std::env::current_exe().unwrap_or_else(|e| kit::ev::machinery(format!("C38: current_exe: {e}")));
+        let n = par::workers().clamp(2, 16);
+        let made: Mutex<Vec<Mutex<Zygote>>> = Mutex::new(vec![]);
+        par::for_each_index(n as u64, |_| {
+            let mut child = Command::new(&exe)
+                .arg("C38")
+                .env("VERIF_C38_WORKER", "zygote")
+                .stdin(Stdio::piped())
+                .stdout(Stdio::piped())
+                .stderr(Stdio::null())
+                .spawn()
+                .unwrap_or_else(|e| kit::ev::machinery(format!("C38: cannot spawn worker: {e}")));
+            let stdin = child.stdin.take().unwrap_or_else(|| kit::ev::machinery("C38: worker stdin"));
+            let stdout = std::io::BufReader::new(child.stdout.take().unwrap_or_else(|| kit::ev::machinery("C38: worker stdout")));
+            made.lock().unwrap().push(Mutex::new(Zygote { child, stdin, stdout }));
+        });
+        made.into_inner().unwrap()
+    })
+}
+
+fn shutdown_zygotes() {
+    for z in zygotes() {
+        let mut g = z.lock().unwrap_or_else(|e| e.into_inner());
+        let _ = g.child.kill();
+        let _ = g.child.wait();
+    }
+}
+
+/// One job in a fresh process (a fork of an idle zygote).
 fn spawn_worker(job: &Value) -> Value {
-    let exe = std::env::current_exe().unwrap_or_else(|e| kit::ev::machinery(format!("C38: current_exe: {e}")));
-    let mut child = Command::new(exe)
-        .arg("C38")
-        .env("VERIF_C38_WORKER", "1")
-        .stdin(Stdio::piped())
-        .stdout(Stdio::piped())
-        .stderr(Stdio::null())
-        .spawn()
-        .unwrap_or_else(|e| kit::ev::machinery(format!("C38: cannot spawn worker: {e}")));
-    {
-        let mut si = child.stdin.take().unwrap_or_else(|| kit::ev::machinery("C38: worker stdin"));
-        let _ = si.write_all(job.to_string().as_bytes());
+    static NEXT: AtomicUsize = AtomicUsize::new(0);
+    let zs = zygotes();
+    let mut g = zs[NEXT.fetch_add(1, Ordering::Relaxed) % zs.len()].lock().unwrap_or_else(|e| e.into_inner());
+    let mut line = job.to_string();
+    line.push('\n');
+    if g.stdin.write_all(line.as_bytes()).is_err() || g.stdin.flush().is_err() {
+        kit::ev::machinery("C38: cannot send a job to a worker");
     }
-    let out = child.wait_with_output().unwrap_or_else(|e| kit::ev::machinery(format!("C38: worker wait: {e}")));
-    if !out.status.success() {
-        kit::ev::machinery(format!("C38: worker failed with {:?} for job {}", out.status, job["job"]));
+    let mut answer = String::new();
+    use std::io::BufRead;
+    if g.stdout.read_line(&mut answer).unwrap_or(0) == 0 {
+        kit::ev::machinery("C38: worker closed its output");
     }
-    serde_json::from_slice(&out.stdout).unwrap_or_else(|e| kit::ev::machinery(format!("C38: worker output unreadable: {e}")))
+    let v: Value = serde_json::from_str(answer.trim()).unwrap_or_else(|e| kit::ev::machinery(format!("C38: worker output unreadable: {e}")));
+    if let Some(e) = v["error"].as_str() {
+        kit::ev::machinery(format!("C38: worker failed: {e} (job {})", job["job"]));
+    }
+    v
 }
 
 // ------------------------------------------------------------------------------------------------
@@ -209,24 +332,28 @@ struct SeqRecord {
     obs: Vec<String>,
     /// produced assets: (op index in seq, mime, bytes, in-process reads [immediate, re-read 1, re-read 2])
     produced: Vec<(usize, &'static str, Vec<u8>, Vec<String>)>,
+    /// digest-masked report of the read made right after each produced asset was signed
+    produced_masked: Vec<String>,
 }
 
 fn run_sequence(seq: &[usize], fx: &Arc<Fixed>) -> SeqRecord {
     let (seq2, fx2) = (seq.to_vec(), fx.clone());
     let h = std::thread::spawn(move || {
-        let mut rec = SeqRecord { seq: seq2.clone(), obs: vec![], produced: vec![] };
+        let mut rec = SeqRecord { seq: seq2.clone(), obs: vec![], produced: vec![], produced_masked: vec![] };
         for (i, op) in seq2.iter().enumerate() {
             let d = perform(*op, &fx2);
             rec.obs.push(d.obs);
             if let Some((mime, bytes)) = d.produced {
-                let now = read_canon(mime, &bytes);
+                let (now, masked) = read_both(ops()[*op].cfg, mime, &bytes);
                 rec.produced.push((i, mime, bytes, vec![now]));
+                rec.produced_masked.push(masked);
             }
         }
         // afterwards: re-read every produced asset, twice
         for p in rec.produced.iter_mut() {
-            p.3.push(read_canon(p.1, &p.2));
-            p.3.push(read_canon(p.1, &p.2));
+            let cfg = ops()[rec.seq[p.0]].cfg;
+            p.3.push(read_canon(cfg, p.1, &p.2));
+            p.3.push(read_canon(cfg, p.1, &p.2));
         }
         rec
     });
@@ -239,7 +366,7 @@ fn all_sequences(max_len: usize) -> Vec<Vec<usize>> {
     for _ in 0..max_len {
         let mut next = vec![];
         for s in &frontier {
-            for op in 0..OPS.len() {
+            for op in 0..ops().len() {
                 let mut x = s.clone();
                 x.push(op);
                 next.push(x);
@@ -252,7 +379,7 @@ fn all_sequences(max_len: usize) -> Vec<Vec<usize>> {
 }
 
 fn names(seq: &[usize]) -> Vec<&'static str> {
-    seq.iter().map(|o| OPS[*o]).collect()
+    seq.iter().map(|o| ops()[*o].name).collect()
 }
 
 fn first_diff(a: &str, b: &str) -> String {
@@ -272,35 +399,41 @@ fn judge(run: &Run, rec: &SeqRecord, fresh: &RefsOfFresh, fresh_reads: &BTreeMap
     let mut bad = 0;
     let hist = |i: usize| -> String {
         // the most recent earlier operation kind, as the stable part of the key
-        if i == 0 { "none".into() } else { OPS[rec.seq[i - 1]].to_string() }
+        if i == 0 { "none".into() } else { ops()[rec.seq[i - 1]].name.to_string() }
     };
     for (i, op) in rec.seq.iter().enumerate() {
         let (want_obs, _) = &fresh.op[*op];
         if &rec.obs[i] != want_obs {
             bad += 1;
-            let kind = if rec.obs[i].starts_with("PANIC") { "panic" } else if matches!(*op, 2 | 3) { "read-report-differs-from-fresh-process" } else { "operation-result-differs-from-fresh-process" };
+            let kind = if rec.obs[i].starts_with("PANIC") { "panic" } else if matches!(ops()[*op].kind, 2 | 3) { "read-report-differs-from-fresh-process" } else { "operation-result-differs-from-fresh-process" };
             run.outcome(kind.to_string());
             run.violation(
-                format!("{kind} op={} after={}{context}", OPS[*op], hist(i)),
-                format!("sequence {:?}: step {i} ({}) gives a result that differs from the same operation in a fresh process: {}", names(&rec.seq), OPS[*op], first_diff(&rec.obs[i], want_obs)),
+                format!("{kind} op={} after={}{context}", ops()[*op].name, hist(i)),
+                format!("sequence {:?}: step {i} ({}) gives a result that differs from the same operation in a fresh process: {}", names(&rec.seq), ops()[*op].name, first_diff(&rec.obs[i], want_obs)),
                 case.clone(),
             );
         } else {
-            run.outcome(format!("{}: equals fresh process", OPS[*op]));
+            run.outcome(format!("{}: equals fresh process", ops()[*op].name));
         }
     }
     for (pi, (i, _mime, _bytes, reads)) in rec.produced.iter().enumerate() {
         let op = rec.seq[*i];
         // (a) all in-process reads of these bytes equal the fresh process's read of the same bytes
-        let (want, want_masked) = fresh_reads.get(&(idx, pi)).unwrap_or_else(|| kit::ev::machinery("C38: missing fresh read"));
+        // (quick tier: no fresh process per produced asset; then the reads made later must equal the read made right
+        //  after signing, and (b) below judges that one, digests masked, against the fresh-process operation)
+        let per_asset = fresh_reads.get(&(idx, pi));
+        let (want, want_masked, reference) = match per_asset {
+            Some((c, m)) => (c, m, "fresh-process"),
+            None => (&reads[0], &rec.produced_masked[pi], "first-in-process"),
+        };
         for (ri, r) in reads.iter().enumerate() {
             if r != want {
                 bad += 1;
                 let when = ["immediately", "re-read-1", "re-read-2"][ri.min(2)];
-                run.outcome("in-process read differs from fresh-process read");
+                run.outcome("in-process read of a produced asset differs from its reference read");
                 run.violation(
-                    format!("produced-asset-read-differs-from-fresh-process when={when} op={} after={}{context}", OPS[op], hist(*i)),
-                    format!("sequence {:?}: the asset produced at step {i} reads differently in this process ({when}) than in a fresh process: {}", names(&rec.seq), first_diff(r, want)),
+                    format!("produced-asset-read-differs-from-{reference}-read when={when} op={} after={}{context}", ops()[op].name, hist(*i)),
+                    format!("sequence {:?}: the asset produced at step {i} reads differently in this process ({when}) than its {reference} read: {}", names(&rec.seq), first_diff(r, want)),
                     case.clone(),
                 );
                 break;
@@ -308,7 +441,7 @@ fn judge(run: &Run, rec: &SeqRecord, fresh: &RefsOfFresh, fresh_reads: &BTreeMap
         }
         if reads.len() == 3 && reads[1] != reads[2] {
             bad += 1;
-            run.violation(format!("re-reads-differ op={}{context}", OPS[op]), format!("sequence {:?}: two consecutive reads of the asset of step {i} differ: {}", names(&rec.seq), first_diff(&reads[1], &reads[2])), case.clone());
+            run.violation(format!("re-reads-differ op={}{context}", ops()[op].name), format!("sequence {:?}: two consecutive reads of the asset of step {i} differ: {}", names(&rec.seq), first_diff(&reads[1], &reads[2])), case.clone());
         }
         // (b) signing independent of history: same canonical report as the same operation in a fresh process
         if let Some(wantc) = &fresh.op[op].1 {
@@ -316,12 +449,12 @@ fn judge(run: &Run, rec: &SeqRecord, fresh: &RefsOfFresh, fresh_reads: &BTreeMap
                 bad += 1;
                 run.outcome("signing depends on history");
                 run.violation(
-                    format!("signed-result-depends-on-history op={} after={}{context}", OPS[op], hist(*i)),
-                    format!("sequence {:?}: the asset signed at step {i} ({}) is not the one a fresh process signs: {}", names(&rec.seq), OPS[op], first_diff(want_masked, wantc)),
+                    format!("signed-result-depends-on-history op={} after={}{context}", ops()[op].name, hist(*i)),
+                    format!("sequence {:?}: the asset signed at step {i} ({}) is not the one a fresh process signs: {}", names(&rec.seq), ops()[op].name, first_diff(want_masked, wantc)),
                     case.clone(),
                 );
             } else {
-                run.outcome(format!("{}: output equals fresh-process output", OPS[op]));
+                run.outcome(format!("{}: output equals fresh-process output", ops()[op].name));
             }
         }
     }
@@ -333,12 +466,14 @@ pub fn run(run: &Run, replay: Option<&Value>) {
         worker_main();
     }
     run.rule(
-        "alphabet of 8 operations; ALL sequences up to the stated length run in this one process, each on a fresh thread, process-wide state accumulating; every asset produced is read at once and re-read twice at the end. \
+        "alphabet = 8 operation kinds x the validation-relevant configurations that matter for them {plain, test root as trust anchor, allow-list, verify_trust off} (13 operations); ALL sequences up to the stated length run in this one process, each on a fresh thread, process-wide state accumulating; every asset produced is read at once and re-read twice at the end. \
          evaluations = operations executed here + fresh worker processes consulted. states = sequences (process histories), transitions = operations executed. \
          non-trivial = sequences of length >= 2 that produce at least one asset (a read whose history contains another operation), counted per distinct sequence.",
     );
-    run.assume("a fresh worker process (same binary, nothing executed before) is the reference for 'the same bytes and settings'; its own determinism is checked by asking two workers");
+    run.assume("a fresh process = a fork of an idle zygote process of the same binary that has executed nothing of the SDK (one fork per job); it is the reference for 'the same bytes and settings'; its own determinism is checked by asking two workers");
     run.assume("reports are compared after canonicalisation (labels, instance ids, validation time)");
+    run.assume("quick tier: fresh-process references exist per operation (= per fixed asset and configuration, asked twice); produced assets are judged by their digest-masked report against the fresh-process result of the same operation, and their later re-reads against the read made right after signing. thorough tier and replay: additionally one fresh process per produced asset");
+    run.assume("each operation is compared with the fresh-process reference computed under the SAME configuration; produced assets are read under the configuration of the operation that produced them");
     run.assume("every read is done twice: with an explicit Context carrying the kit base settings and with a plain Context::new(); the legacy operation only touches thread-local settings, which no Context-based operation is supposed to read");
     let fx = Arc::new(make_fixed());
     let fixed_json = |mut j: Value| -> Value {
@@ -347,52 +482,97 @@ pub fn run(run: &Run, replay: Option<&Value>) {
         j
     };
 
-    // fresh-process references per operation kind (asked twice: the reference itself must be deterministic)
-    let fresh_ops: Vec<(Value, Value)> = {
+    // fresh-process references per operation (asked twice: the reference itself must be deterministic); the worker
+    // processes work while this process runs its sequences
+    let compute_fresh_ops = || -> Vec<(Value, Value)> {
         let out: Mutex<BTreeMap<u64, (Value, Value)>> = Mutex::new(BTreeMap::new());
-        par::for_each_index(OPS.len() as u64, |op| {
+        par::for_each_index(2 * ops().len() as u64, |k| {
+            let op = k / 2;
             let j = fixed_json(json!({"job": "op", "op": op}));
-            out.lock().unwrap().insert(op, (spawn_worker(&j), spawn_worker(&j)));
+            let v = spawn_worker(&j);
+            let mut g = out.lock().unwrap();
+            let e = g.entry(op).or_insert((Value::Null, Value::Null));
+            if k % 2 == 0 { e.0 = v } else { e.1 = v }
         });
         out.into_inner().unwrap().into_values().collect()
     };
-    run.evals(2 * OPS.len() as u64);
+    let max_len = run.tier.pick(2usize, 3usize);
+    let seqs: Vec<Vec<usize>> = match replay {
+        Some(c) => vec![c["sequence"].as_array().map(|a| a.iter().filter_map(|x| x.as_u64().map(|n| n as usize)).collect()).unwrap_or_default()],
+        None => all_sequences(max_len),
+    };
+    let t_seq = std::time::Instant::now();
+    let (fresh_ops, recs): (Vec<(Value, Value)>, Vec<SeqRecord>) = std::thread::scope(|s| {
+        let h = s.spawn(compute_fresh_ops);
+        // own the nondeterminism: one two-step sequence twice
+        let probe = [op_named("sign-png@plain"), op_named("read-good@plain")];
+        let (a, b) = (run_sequence(&probe, &fx), run_sequence(&probe, &fx));
+        if a.obs != b.obs || a.produced.len() != b.produced.len() {
+            kit::ev::machinery("C38: the same sequence gives two different canonical observations");
+        }
+        // all sequences, sequentially, in this process
+        let recs: Vec<SeqRecord> = seqs.iter().map(|s| run_sequence(s, &fx)).collect();
+        (h.join().unwrap_or_else(|_| kit::ev::machinery("C38: reference thread panicked")), recs)
+    });
+    run.extra("elapsed_sequences_and_references_s", json!(t_seq.elapsed().as_secs_f64()));
+    run.evals(2 * ops().len() as u64);
     let mut fresh = RefsOfFresh { op: vec![] };
     for (op, (a, b)) in fresh_ops.iter().enumerate() {
         if a != b {
-            kit::ev::machinery(format!("C38: two fresh processes disagree on {}: {}", OPS[op], first_diff(&a.to_string(), &b.to_string())));
+            kit::ev::machinery(format!("C38: two fresh processes disagree on {}: {}", ops()[op].name, first_diff(&a.to_string(), &b.to_string())));
         }
         fresh.op.push((a["obs"].as_str().unwrap_or("").to_string(), a["produced_canon"].as_str().map(|s| s.to_string())));
     }
-    // the references must be meaningful
-    if !fresh.op[2].0.contains("\"state\":\"Valid\"") && !fresh.op[2].0.contains("\"state\":\"Trusted\"") {
-        kit::ev::machinery(format!("C38 seed: fresh read of the good asset is not Valid: {}", fresh.op[2].0.chars().take(200).collect::<String>()));
+    // the references must be meaningful, and the configuration axis must matter
+    let fresh_obs = |name: &str| fresh.op[op_named(name)].0.split(" | default-context").next().unwrap_or("").to_string();
+    let state_is = |name: &str, st: &str| fresh_obs(name).contains(&format!("\"state\":\"{st}\""));
+    if !state_is("read-good@plain", "Valid") || !fresh_obs("read-good@plain").contains("signingCredential.untrusted") {
+        kit::ev::machinery(format!("C38 seed: fresh read-good@plain is not Valid/untrusted: {}", fresh_obs("read-good@plain").chars().take(200).collect::<String>()));
     }
-    if !fresh.op[3].0.contains("\"state\":\"Invalid\"") {
+    if !state_is("read-good@anchors", "Trusted") || !state_is("read-good@allow-list", "Trusted") {
+        kit::ev::machinery("C38 seed: the test root / the allow-list do not make the fixture signer Trusted in a fresh process");
+    }
+    if !state_is("read-good@no-verify-trust", "Valid") || fresh_obs("read-good@no-verify-trust").contains("signingCredential.untrusted") {
+        kit::ev::machinery("C38 seed: verify_trust=false does not switch the trust check off in a fresh process");
+    }
+    if !state_is("read-tampered@plain", "Invalid") || !state_is("read-tampered@anchors", "Invalid") {
         kit::ev::machinery("C38 seed: fresh read of the tampered asset is not Invalid");
     }
-    if fresh.op[6].0 != "legacy-set" || fresh.op[7].0 != "Cancelled" || fresh.op.iter().take(2).chain(fresh.op.iter().skip(4).take(2)).any(|o| o.0 != "signed" || !o.1.as_deref().unwrap_or("").starts_with("Ok:")) {
-        kit::ev::machinery(format!("C38 seed: fresh operations do not succeed: {:?}", fresh.op.iter().map(|o| o.0.chars().take(30).collect::<String>()).collect::<Vec<_>>()));
+    for (i, o) in ops().iter().enumerate() {
+        let bad = match o.kind {
+            0 | 1 | 4 | 5 => fresh.op[i].0 != "signed" || !fresh.op[i].1.as_deref().unwrap_or("").starts_with("Ok:"),
+            6 => fresh.op[i].0 != "legacy-set",
+            7 => fresh.op[i].0 != "Cancelled",
+            _ => false,
+        };
+        if bad {
+            kit::ev::machinery(format!("C38 seed: fresh operation {} does not succeed: {}", o.name, fresh.op[i].0.chars().take(60).collect::<String>()));
+        }
+    }
+    if fresh.op[op_named("sign-with-ingredient@plain")].1 == fresh.op[op_named("sign-with-ingredient@anchors")].1 {
+        kit::ev::machinery("C38 seed: the trust configuration does not show in the validation results stored for the ingredient");
     }
 
-    let check = |seqs: &[Vec<usize>], context: &str| -> usize {
-        // 1. all sequences, sequentially, in this process
-        let recs: Vec<SeqRecord> = seqs.iter().map(|s| run_sequence(s, &fx)).collect();
+    // thorough (and replay): one fresh process per produced asset; quick: fresh references per operation only
+    let per_asset_fresh = run.tier.is_thorough() || replay.is_some();
+    let check = |recs: Vec<SeqRecord>, context: &str| -> usize {
+        let t_fresh = std::time::Instant::now();
         let ops_run: u64 = recs.iter().map(|r| r.seq.len() as u64 + 3 * r.produced.len() as u64).sum();
         run.evals(ops_run);
         run.states(recs.len() as u64);
         run.transitions(recs.iter().map(|r| r.seq.len() as u64).sum());
         run.traces(recs.len() as u64);
         // 2. one fresh process per produced asset
-        let jobs: Vec<(usize, usize)> = recs.iter().enumerate().flat_map(|(i, r)| (0..r.produced.len()).map(move |p| (i, p))).collect();
+        let jobs: Vec<(usize, usize)> = if per_asset_fresh { recs.iter().enumerate().flat_map(|(i, r)| (0..r.produced.len()).map(move |p| (i, p))).collect() } else { vec![] };
         let fresh_reads: Mutex<BTreeMap<(usize, usize), (String, String)>> = Mutex::new(BTreeMap::new());
         par::for_each(&jobs, |(i, p)| {
-            let (_, mime, bytes, _) = &recs[*i].produced[*p];
-            let v = spawn_worker(&json!({"job": "read", "mime": mime, "hex": hex(bytes)}));
+            let (step, mime, bytes, _) = &recs[*i].produced[*p];
+            let v = spawn_worker(&json!({"job": "read", "cfg": ops()[recs[*i].seq[*step]].cfg, "mime": mime, "hex": hex(bytes)}));
             fresh_reads.lock().unwrap().insert((*i, *p), (v["canon"].as_str().unwrap_or("").to_string(), v["masked"].as_str().unwrap_or("").to_string()));
         });
         run.evals(jobs.len() as u64);
         run.extra("fresh_worker_processes_for_produced_assets", json!(jobs.len()));
+        run.extra("elapsed_fresh_reads_s", json!(t_fresh.elapsed().as_secs_f64()));
         let fr = fresh_reads.into_inner().unwrap();
         let mut bad = 0;
         for (i, r) in recs.iter().enumerate() {
@@ -407,24 +587,14 @@ pub fn run(run: &Run, replay: Option<&Value>) {
         bad
     };
 
-    if let Some(c) = replay {
-        let seq: Vec<usize> = c["sequence"].as_array().map(|a| a.iter().filter_map(|x| x.as_u64().map(|n| n as usize)).collect()).unwrap_or_default();
-        println!("replay sequence {:?} alone in this process", names(&seq));
-        let bad = check(&[seq], "");
+    if replay.is_some() {
+        println!("replay sequence {:?} alone in this process", names(&seqs[0]));
+        let bad = check(recs, "");
         println!("  deviations from the fresh-process references: {bad}");
+        shutdown_zygotes();
         return;
     }
-
-    let max_len = run.tier.pick(2usize, 4usize);
-    let seqs = all_sequences(max_len);
-    run.space(&format!("all operation sequences of length 1..={max_len} over {} operations {:?}", OPS.len(), OPS), seqs.len() as u64, true);
-    // own the nondeterminism: the first two-step sequence twice
-    {
-        let a = run_sequence(&[0, 2], &fx);
-        let b = run_sequence(&[0, 2], &fx);
-        if a.obs != b.obs || a.produced.len() != b.produced.len() {
-            kit::ev::machinery("C38: the same sequence gives two different canonical observations");
-        }
-    }
-    check(&seqs, "");
+    run.space(&format!("all operation sequences of length 1..={max_len} over {} operations {:?}", ops().len(), ops().iter().map(|o| o.name).collect::<Vec<_>>()), seqs.len() as u64, true);
+    check(recs, "");
+    shutdown_zygotes();
 }
